@@ -15,6 +15,9 @@ use crate::state::hooks::HookProcessor;
 use crate::state::registers::SupportedRegister;
 use iced_x86::Instruction;
 
+/// number of instrumented-hook invocations so far (written by the harness hooks)
+pub static mut HOOK_LOG_LEN: u8 = 0;
+
 pub const AREA: usize = 16;
 pub const NAREA: usize = 2;
 
@@ -124,7 +127,7 @@ impl Axecutor {
         self.script.dispatch_calls += 1;
         self.script.rip_at_dispatch = self.state.regs[0];
         self.script.count_at_dispatch = self.state.executed_instructions_count;
-        self.script.log_len_at_dispatch = crate::harness::l3::log_len();
+        self.script.log_len_at_dispatch = unsafe { HOOK_LOG_LEN };
         // an instruction may change any architectural state; RIP and RAX stand for it
         self.state.regs[0] = self.script.dispatch_new_rip;
         self.state.regs[1] = self.script.dispatch_new_rax;
